@@ -296,6 +296,19 @@ func (l *Lexer) NextToken() token.Token {
 		}
 
 	case rune(0):
+
+		// We use a NUL character to mark the end of our input, but
+		// a NUL might also be present in the input itself.  That
+		// is not the end of the script, and what follows it must
+		// not be silently ignored.
+		if l.position < len(l.characters) {
+			tok.Type = token.ILLEGAL
+			tok.Literal = "invalid NUL character in input"
+			tok.Column = l.column
+			tok.Line = l.line
+			l.readChar()
+			return tok
+		}
 		tok.Literal = ""
 		tok.Type = token.EOF
 
